@@ -26,6 +26,7 @@ DocsOf(R) == {R[i][1] : i \in 1..Len(R)}
 P01 ==
     /\ ~Ev.panic
     /\ Ev.deflt >= 1 /\ Ev.deflt = Ev.defltneg              \* one default limit for 0 and for negative limits
+    /\ Ev.deflt < Ev.sat                                    \* ... which is a limit: fewer results than a large explicit limit yields
     /\ Len(Ev.main) <= Ev.efflim
     /\ \A i \in 1..Len(Ev.main) : Ev.main[i][1] >= 0 /\ Ev.main[i][1] < Ev.n /\ Ev.main[i][3] \in {0, 1}
     /\ Cardinality(DocsOf(Ev.main)) = Len(Ev.main)
@@ -77,6 +78,7 @@ TNlp == Ev.op = "nlp"
             (i < j /\ Ev.kw[i] \in SeqSet(Ev.uw) /\ Ev.kw[j] \in SeqSet(Ev.uw) /\ Ev.kwsyn[i] = 0 /\ Ev.kwsyn[j] = 0)
                 => IdxIn(Ev.kw[i], Ev.uw) < IdxIn(Ev.kw[j], Ev.uw))      \* (a synonym may follow its word: such slots are exempt)
     /\ Ev.same                                                            \* analysing the same text again gives the same analysis
+    /\ Ev.kwcomp                                                          \* no word of the user's is lost by the words around it
     /\ Ev.onsame                                                          \* ... also inside a database that has analysed other texts before
 
 \* C03 (a): the candidates are exactly the documents containing a content word of the query (all of them up to ten
